@@ -36,8 +36,8 @@ XpClauses(r) ==
                  \cup (IF r.tokfail THEN {}
                        \* the text of a record re-read from the repaired text (known triangle_tags defect) is not the writer's
                        ELSE IF r.patched THEN {}
-                       ELSE IF OrderClauses(exp0, r.doc2) # {} THEN C(TextClauses(ps, r.toks1, r.toks2) = {}, "text:order")
-                       ELSE TextClauses(ps, r.toks1, r.toks2))
+                       ELSE IF OrderClauses(exp0, r.doc2) # {} THEN C(TextClauses(ps, r.toks1, r.toks2, HasAmb(r.doc)) = {}, "text:order")
+                       ELSE TextClauses(ps, r.toks1, r.toks2, HasAmb(r.doc)))
 
 \* IDs of one kind in a token stream
 TokIds(toks, kind) == {toks[j].n : j \in {j \in 1..Len(toks) : toks[j].ik = kind /\ toks[j].k # "groupid"
